@@ -225,6 +225,43 @@ def builder_stop_cases(thorough):
                                   ("pstream", mk(2 * b), 0, 1, False)]
 
 
+def flood_cases(thorough):
+    """hostile floods on the peer-driven state, in every ordering class, WITHOUT the endpoint transmitting in between
+    (several frames in one packet / several datagrams handed to receive_datagram() in a row / congestion window full):
+    NEW_CONNECTION_ID fresh, duplicate, stale (sequence number below the known Retire Prior To, never seen before),
+    after a Retire Prior To jump far ahead, interleaved; PATH_CHALLENGE and CRYPTO bursts.  Oracle: every documented bound
+    at every step or the connection is closed (CONNECTION_ID_LIMIT_ERROR / CRYPTO_BUFFER_EXCEEDED), and no growth of this
+    state once the endpoint has decided to close."""
+    for cl in (True, False):
+        cfg = {"seed": 12, "e_is_client": cl, "queues": True, "p_opts": {"max_data": 10 ** 7, "max_stream_data": 10 ** 7}}
+        jump = 100000
+        for n in ([40] if not thorough else [33, 34, 40, 120]):
+            stale = [(1000 + i, 0) for i in range(n)]                       # distinct, never seen, below Retire Prior To
+            stale_rpt = [(1000 + i, 900 + i % 50) for i in range(n)]        # ... with older Retire Prior To values of their own
+            fresh = [(jump + 1 + i, jump) for i in range(n)]
+            dup = [(1000 + i % 3, 0) for i in range(n)]
+            mixed = [x for trio in zip(stale, dup, fresh) for x in trio]
+            for pre in ([], [("fill",)]):
+                head = pre + [("ncid", jump, jump)]
+                for name, burst in (("stale", stale), ("stale-rpt", stale_rpt), ("fresh", fresh), ("dup", dup), ("mixed", mixed)):
+                    if not thorough and pre and name in ("fresh", "dup"):
+                        continue
+                    as_frames = [("ncid", a, b) for a, b in burst]
+                    yield cfg, head + [("quiet", as_frames)]                                 # datagrams in a row, no transmit
+                    yield cfg, head + [("ncids", burst[:38])] + ([("ncids", burst[38:76])] if len(burst) > 38 else [])
+                    if pre or thorough:
+                        yield cfg, head + as_frames                                          # one datagram each, transmit refused
+                # without the jump: stale relative to a Retire Prior To raised step by step
+                steps = [("ncid", 9 + i, min(9 + i, 2 * i)) for i in range(6)]
+                yield cfg, pre + steps + [("quiet", [("ncid", 200 + i, 0) for i in range(n)])]
+                yield cfg, pre + [("quiet", [s_ for s_ in steps] + [("ncid", 8, 0)] + [("ncid", 300 + i, 1) for i in range(n)])]
+            # the other queues
+            yield cfg, [("quiet", [("chal", 20), ("chal", 20), ("chal", 1), ("chal", 40)])]
+            yield cfg, [("fill",), ("quiet", [("chal", 33), ("chal", 33)]), ("tx",), ("chal", 32)]
+            yield cfg, [("quiet", [("crypto", 1 + 1000 * i, 1000) for i in range(8)] + [("crypto", 524287, 1), ("crypto", 524288, 1),
+                                       ("crypto", 524289, 5), ("crypto", 100, 1000), ("ncid", 9, 0), ("chal", 5)])]
+
+
 def exhaustive_cases(configs, k, stride):
     for (d, m, b, u) in configs:
         cfg = {"seed": 2, "e_is_client": True, "e_opts": {"max_data": d, "max_stream_data": m}, "e_streams": (b, u),
@@ -359,8 +396,11 @@ def evaluate(ctx, name, cfg, script, res, cases, impl_outs, qcases, qouts):
         ctx.witness(p, replay, {"oracle": "wire-recv"})
     for p in res["bounds_problems"][:1]:
         ctx.witness(p, replay, {"oracle": "bounds"})
-    for p in res.get("queue_problems", [])[:1]:
+    qp = res.get("queue_problems", [])
+    for p in [q for q in qp if "close decision" not in q][:1]:
         ctx.witness(p, replay, {"oracle": "queues"})
+    for p in [q for q in qp if "close decision" in q][:1]:
+        ctx.witness(p, replay, {"oracle": "queues", "cause": "processing-after-close"})
     for ex in pu.E.raised:
         if type(ex[1]).__name__ not in ("ValueError", "AssertionError"):
             ctx.notes.setdefault("unexpected_exceptions", []).append(f"{ex[0]}: {ex[1]!r}"[:200])
@@ -521,6 +561,13 @@ def main(tier):
         evaluate(ctx, "queues", cfg, script, res, cases, impl_outs, qcases, qouts)
         if i == 0:
             ctx.sample({"queues": {"cfg": cfg, "script": script[:10]}})
+    # 3b. hostile floods on the peer-driven state without a transmit in between
+    nfl = 0
+    for cfg, script in flood_cases(thorough):
+        res = fc.run_puppet(cfg, script)
+        evaluate(ctx, "floods", cfg, script, res, cases, impl_outs, qcases, qouts)
+        nfl += 1
+    ctx.notes["cases_floods"] = nfl
     fc.diff_cases(ctx, "flow-recv-queues-streams", cases, impl_outs)
     fc.diff_cases(ctx, "flow-queues", qcases, qouts)
     ctx.cov["rule"] = (
@@ -542,7 +589,11 @@ def main(tier):
         "above the final size, on held streams, with and without a write loop in between, duplicated; (2) PRNG histories of such frames interleaved with the endpoint raising its limits "
         "(MAX_* observed on the wire), loss of the packets carrying MAX_*, a full congestion window (MAX_* cannot be "
         "written), application writes/stops; (3) CRYPTO frames around MAX_PENDING_CRYPTO, PATH_CHALLENGE bursts, "
-        "NEW_CONNECTION_ID / retire-prior-to sequences. Non-trivial = a history with a frame accepted within limits and a "
+        "NEW_CONNECTION_ID / retire-prior-to sequences; (3b) hostile floods without a transmit in between (several frames in one "
+        "packet, several datagrams handed to receive_datagram() in a row, congestion window full): NEW_CONNECTION_ID fresh / "
+        "duplicate / stale below the known Retire Prior To (never seen, after a jump far ahead or raised step by step) / mixed, "
+        "PATH_CHALLENGE and CRYPTO bursts; every documented bound is checked after every datagram (else closed with the limit "
+        "error), and no growth of this state once the endpoint has decided to close. Non-trivial = a history with a frame accepted within limits and a "
         "violation detected (or a queue history of more than 3 frames); distinct by (config, script) hash."
     )
     ctx.cov["exhaustive"] = True
@@ -565,8 +616,12 @@ def replay(path):
             cfg[key] = tuple(cfg[key])
     res = fc.run_puppet(cfg, script)
     probs = res["recv_problems"] + res["bounds_problems"] + res.get("queue_problems", [])
+    known = [q for q in probs if "close decision" in q]       # open finding C07-processing-after-close-decision
+    wanted = d.get("signature", {}).get("cause") == "processing-after-close"
+    probs = probs if wanted else [q for q in probs if q not in known]
     if probs:
         print("still failing: " + probs[0])
         return 1
-    print("no longer failing")
+    print("no longer failing" + (" (the recorded finding C07-processing-after-close-decision reproduces on this input: "
+                                 + known[0] + ")" if known else ""))
     return 0
